@@ -1,6 +1,11 @@
 //! E1 `sysmc`: the real crate + dependency shims under `detsched` (see /verif/DESIGN.md §2.1).
+mod c05;
 mod c08;
+mod c10;
+mod c14;
 mod c15;
+mod hr;
+mod hsearch;
 mod mem;
 mod util;
 
@@ -23,6 +28,25 @@ fn replay(path: &str) {
     let v: Value = serde_json::from_slice(&std::fs::read(path).expect("replay file")).expect("json");
     let v = if v.get("replay").is_some() { v["replay"].clone() } else { v };
     let name = v["harness"].as_str().unwrap();
+    if name == "history" {
+        let cfg: hr::HCfg = serde_json::from_value(v["params"]["cfg"].clone()).expect("cfg");
+        let ops: Vec<String> = v["params"]["ops"].as_array().unwrap().iter().map(|x| x.as_str().unwrap().to_string()).collect();
+        let r = hr::run_history(&cfg, &ops, &[]);
+        println!("world files: {:?}", cfg.files);
+        for o in &ops {
+            println!("  op  {o}");
+        }
+        for o in &r.obs {
+            println!("  obs {o}");
+        }
+        println!("verdict={:?} panicked={:?}", r.verdict, r.panicked);
+        let mut res = vcommon::SubResult::new("", "replay");
+        hsearch::report(&mut res, "replay", &cfg, &ops, &r);
+        for v in &res.violations {
+            println!("REPRODUCED {}: {}", v.key, v.desc);
+        }
+        std::process::exit(if res.violations.is_empty() { 0 } else { 1 });
+    }
     let (mk, mut judge) = harness(name, &v["params"]);
     let choices: Vec<usize> = v["choices"].as_array().map(|a| a.iter().map(|x| x.as_u64().unwrap() as usize).collect()).unwrap_or_default();
     let cfg = ds::Config { writer_pref: v["writer_pref"].as_bool().unwrap_or(false), horizon: 0, record_ops: true };
@@ -54,7 +78,10 @@ fn main() {
         return;
     }
     let res = match args.subcheck.as_str() {
+        "c05_conv" | "c06_precise" => c05::run(&args, &args.subcheck.clone()),
         "c08_callers" => c08::callers(&args),
+        "c10_static" => c10::run(&args),
+        "c14_attrib" => c14::run(&args),
         "c15_lifecycle" => c15::lifecycle(&args),
         s => {
             eprintln!("unknown subcheck {s}");
